@@ -34,7 +34,7 @@ STATIC = ('Static analysis of the MIR rustc produces for the real cargo build (r
 
 PROPERTIES = {
     'C01': P('ordered collection equals sequential iteration',
-             ['C01-KEY', 'C01-APPEND', 'C01-MERGE', 'C01-RESERVE', 'C01-COMPOSE', 'C05-VISIT', 'S2', 'S4', 'S5', 'S1'],
+             ['C01-KEY', 'C01-APPEND', 'C01-MERGE', 'C01-RESERVE', 'C01-COMPOSE', 'C05-VISIT', 'C05-NOSKIP', 'C05-SOURCE', 'S2', 'S4', 'S5', 'S1'],
              STATIC + 'Decided: merge keys / positional slots are the source positions delivered by the pull that produced the value; '
              'per-thread buffers are append-only; def-use facts of the k-way merge; capacity reservation dominates the positional path; '
              'stage order in composed closures; all per-thread results reach the merge; ordered terminals never reach an unordered kernel. '
@@ -45,15 +45,15 @@ PROPERTIES = {
              'originate from the pull position; each task returns its own first match; any/all/find_with_index wiring. '
              'Not decided: the schedule quantifier itself (discharged compositionally through T3).'),
     'C03': P('reduce family combines every surviving element exactly once',
-             ['C03-MAYBE', 'C03-THREAD', 'C03-OUTER', 'C03-WRAP', 'C05-VISIT', 'S2', 'S4', 'S5'],
+             ['C03-MAYBE', 'C03-THREAD', 'C03-OUTER', 'C03-WRAP', 'C05-VISIT', 'C05-NOSKIP', 'S2', 'S4', 'S5'],
              STATIC + 'Decided: maybe_reduce truth table; accumulator threading in every reduce task; outer operator is the user operator '
              'lifted over Option; provided-method wrappers. Not decided: numerical equality over schedules.'),
     'C04': P('count and for_each visit every surviving element exactly once',
-             ['C04-SUM', 'C04-THREAD', 'C04-FOREACH', 'C04-CHAIN', 'C05-VISIT', 'S2', 'S4', 'S5'],
+             ['C04-SUM', 'C04-THREAD', 'C04-FOREACH', 'C04-CHAIN', 'C05-VISIT', 'C05-NOSKIP', 'S2', 'S4', 'S5'],
              STATIC + 'Decided: counts are summed with + and default 0; count accumulators are threaded; for_each = count(map(f)); counting '
              'chains cannot skip closures. Not decided: multiset equality over schedules.'),
     'C05': P('closures run exactly once per element; source advanced by one thread at a time',
-             ['C05-AFFINE', 'C05-ONCE', 'C01-COMPOSE', 'C05-VISIT', 'C05-SOURCE'],
+             ['C05-AFFINE', 'C05-ONCE', 'C01-COMPOSE', 'C05-VISIT', 'C05-SOURCE', 'C05-NOSKIP'],
              STATIC + 'Decided: stage closures take elements by value; by-reference closures are called at most once per element between '
              'pulls; downstream stages run only on survivors; must-visit tasks observe exhaustion and drop no pulled element; by-value '
              'iterators enter only through the serialising wrapper. Not decided: ConIterOfIter really serialises next().'),
@@ -62,7 +62,7 @@ PROPERTIES = {
              STATIC + 'Decided: a by-value target is never dropped on a normal path and the result depends on it; &mut targets only receive '
              'appends; the write offset is the target length taken before the run. Not decided: dependency conversions keep contents.'),
     'C07': P('collect_x returns a permutation of the sequential result',
-             ['C07-FRAG', 'C07-TASK', 'C07-SEQ', 'C01-APPEND', 'C05-VISIT', 'S1', 'S2', 'S4', 'S5'],
+             ['C07-FRAG', 'C07-TASK', 'C07-SEQ', 'C01-APPEND', 'C05-VISIT', 'C05-NOSKIP', 'S1', 'S2', 'S4', 'S5'],
              STATIC + 'Decided: every per-thread fragment returned by the runner is appended unmodified; tasks only append; sequential mode '
              'is the ordered collect. Not decided: multiset equality over schedules; append keeps all fragments (T3).'),
     'C08': P('NumThreads::Max(n) bounds concurrency; Max(1) runs on the calling thread',
